@@ -4,6 +4,8 @@
   `Revert` exactly as coded; lemmas: Zed/Proofs/Lake*.lean).
 -/
 import Zed.Proofs.LakeRevert
+import Zed.Proofs.LakeReplay
+import Zed.Proofs.LakeCompact
 namespace Zed.Props.C15
 open Zed.Lake
 
@@ -80,6 +82,74 @@ theorem readable_after_merge (B Sp Sc : Snap K) (Ap Ac : List (Action K)) (pp pc
     (play Sp d.commitActions).toBool = true := by
   obtain ⟨S', h1, _, _⟩ := merge_exact_partial B Sp Sc Ap Ac pp pc d hpp hpc hSp hSc hd guard
   rw [h1]; rfl
+
+/-- **merge_exact_partial, on pool states** (no hypotheses about patches or action sequences).
+    If `merge child → parent` is acknowledged in a state where both tips are readable
+    (`Sc`, `Sp`), `B` is the snapshot of the common ancestor the code picks, and every object of
+    `B` that the child no longer has is still in the parent (`NoCommonDeletes`, the guard), then
+    the parent's new tip is readable and holds exactly `Sp \ (B \ Sc) ∪ (Sc \ B)`; the
+    parent's vectors are unchanged.  Derived from `merge_exact_partial` by the path-replay lemma
+    (`Store.Snapshot` of a tip = snapshot of the ancestor + the actions `PatchOfPath` plays). -/
+theorem merge_exact_state_partial (s s' : State K V) (child parent ctip ptip : Nat) (Sc Sp : Snap K)
+    (h : merge s child parent = .ok s')
+    (hc : s.tip child = some ctip) (hp : s.tip parent = some ptip)
+    (hSc : snapAt s.commits ctip = .ok Sc) (hSp : snapAt s.commits ptip = .ok Sp) :
+    ∃ B, snapAt s.commits (commonAncestor (pathAt s.commits ptip) (pathAt s.commits ctip)) = .ok B ∧
+      ((∀ id, B.hasObj id = true → Sc.hasObj id = false → Sp.hasObj id = true) →
+        ∃ S', snapAt s'.commits (s.commits.length + 1) = .ok S' ∧ S'.vecs = Sp.vecs ∧
+          ∀ id, S'.hasObj id =
+            ((Sp.hasObj id && !(B.hasObj id && !Sc.hasObj id)) || (Sc.hasObj id && !B.hasObj id))) := by
+  unfold merge at h
+  rw [hc, hp] at h
+  simp only [] at h
+  cases hm : mergeActions s.commits ctip ptip with
+  | error e => simp [hm] at h
+  | ok acts =>
+    simp only [hm, Except.ok.injEq] at h
+    subst h
+    unfold mergeActions at hm
+    split at hm
+    · cases hm
+    · simp only [] at hm
+      split at hm
+      · cases hm
+      · rename_i hanc0
+        have hanc := commonAncestor_mem _ _ hanc0
+        obtain ⟨Bc, hBc, Ac, hplayc, hpatchc⟩ := patchOfPath_replay s.commits ctip _ hanc.2 Sc hSc
+        obtain ⟨Bp, hBp, Ap, hplayp, hpatchp⟩ := patchOfPath_replay s.commits ptip _ hanc.1 Sp hSp
+        rw [hBc] at hBp; cases hBp
+        refine ⟨Bc, hBc, ?_⟩
+        intro guard
+        simp only [hBc] at hm
+        rw [hpatchc, hpatchp] at hm
+        cases hpc : (Patch.new (View.snap Bc)).play Ac with
+        | error e => simp [hpc] at hm
+        | ok pc =>
+          simp only [hpc] at hm
+          cases hpp : (Patch.new (View.snap Bc)).play Ap with
+          | error e => simp [hpp] at hm
+          | ok pp =>
+            simp only [hpp] at hm
+            cases hd : diff pp pc with
+            | error e => simp [hd] at hm
+            | ok d =>
+              simp only [hd, Except.ok.injEq] at hm
+              subst hm
+              have rc := sim Bc Ac _ pc Bc Sc (Rel.init Bc) hpc hplayc
+              have hguard : NoCommonDeletes pc Sp = true := by
+                unfold NoCommonDeletes
+                rw [List.all_eq_true]
+                intro id hid
+                have hcont : pc.delObjs.contains id = true := by simpa using hid
+                have hB := rc.delIn id hcont
+                have hnd : pc.diff.hasObj id = false := by
+                  cases hdh : pc.diff.hasObj id with
+                  | false => rfl
+                  | true => rw [rc.diffOut id hdh] at hB; cases hB
+                have hScid : Sc.hasObj id = false := by rw [rc.mem id, hB, hcont, hnd]; rfl
+                exact guard id hB hScid
+              obtain ⟨S', h1, h2, h3⟩ := merge_exact_partial Bc Sp Sc Ap Ac pp pc d hpp hpc hplayp hplayc hd hguard
+              exact ⟨S', by rw [commit_snap_ s parent ptip _ Sp hSp]; exact h1, h2, h3⟩
 
 /-! ### merge racing with other commits -/
 
@@ -189,6 +259,43 @@ theorem readable_after_revert (B Sc T : Snap K) (A : List (Action K)) (pc : Patc
   obtain ⟨T', h1, _, _⟩ := revert_exact B Sc T A pc acts hpc hSc hr
   rw [h1]; rfl
 
+/-- **revert_exact, on pool states.**  If `revert(b, c)` is acknowledged, `c`'s snapshot `Sc` and
+    its parent's snapshot `B` exist and the tip of `b` is readable (`T`), then the new tip is
+    readable and holds `(T \ (Sc \ B)) ∪ (B \ Sc)`; vectors unchanged. -/
+theorem revert_exact_state (s s' : State K V) (b c t : Nat) (co : Commit K) (Sc T : Snap K)
+    (h : revert s b c = .ok s') (ht : s.tip b = some t) (hco : getCommit s.commits c = some co)
+    (hSc : snapAt s.commits c = .ok Sc) (hT : snapAt s.commits t = .ok T) :
+    ∃ B, snapAt s.commits co.parent = .ok B ∧
+      ∃ T', snapAt s'.commits (s.commits.length + 1) = .ok T' ∧ T'.vecs = T.vecs ∧
+        ∀ id, T'.hasObj id =
+          ((T.hasObj id && !(Sc.hasObj id && !B.hasObj id)) || (B.hasObj id && !Sc.hasObj id)) := by
+  unfold revert at h
+  rw [ht] at h
+  simp only [] at h
+  cases hp : patchOfCommit s.commits c with
+  | error e => simp [hp] at h
+  | ok patch =>
+    simp only [hp, hT] at h
+    cases hr : patch.revert T with
+    | error e => simp [hr] at h
+    | ok acts =>
+      simp only [hr, Except.ok.injEq] at h
+      subst h
+      unfold patchOfCommit at hp
+      simp only [hco] at hp
+      cases hB : snapAt s.commits co.parent with
+      | error e => simp [hB] at hp
+      | ok B =>
+        simp only [hB] at hp
+        refine ⟨B, rfl, ?_⟩
+        have hplay : play B co.acts = .ok Sc := by
+          rw [snapAt_unfold s.commits c co hco] at hSc
+          split at hSc
+          · simpa [hB] using hSc
+          · cases hSc
+        obtain ⟨T', h1, h2, h3⟩ := revert_exact B Sc T co.acts patch acts hp hplay hr
+        exact ⟨T', by rw [commit_snap_ s b t _ T hT]; exact h1, h2, h3⟩
+
 /-! ### non-vacuity of the hypotheses (a concrete base, two divergent sides) -/
 
 private def exB : Snap Nat := { objs := [{ id := 1, min := 1, max := 1, count := 1 }, { id := 2, min := 2, max := 2, count := 1 }] }
@@ -264,5 +371,17 @@ theorem not_merge_removes_child_deleted :
     ∃ s' main child, merge mergedDelete 1 0 = .ok s' ∧ snapAt s'.commits 6 = .ok main ∧
       main.ids = [1, 2, 3] ∧ snapAt mergedDelete.commits 5 = .ok child ∧ child.ids = [1, 3] :=
   ⟨_, _, _, rfl, rfl, rfl, rfl, rfl⟩
+
+/-- non-vacuity of `merge_exact_state_partial` / `revert_exact_state`: in `repeatedMerge` the first
+    merge satisfies all hypotheses, incl. the guard (the only base object the child lacks, 1, is
+    still on main); reverting commit 2 on main satisfies those of the revert theorem -/
+example : ∃ s' Sc Sp B, merge repeatedMerge 1 0 = .ok s' ∧ repeatedMerge.tip 1 = some 3 ∧
+    repeatedMerge.tip 0 = some 2 ∧ snapAt repeatedMerge.commits 3 = .ok Sc ∧
+    snapAt repeatedMerge.commits 2 = .ok Sp ∧
+    snapAt repeatedMerge.commits (commonAncestor (pathAt repeatedMerge.commits 2) (pathAt repeatedMerge.commits 3)) = .ok B ∧
+    B.ids = [1, 2] ∧ Sc.ids = [2] ∧ Sp.ids = [1, 2] := ⟨_, _, _, _, rfl, rfl, rfl, rfl, rfl, rfl, rfl, rfl, rfl⟩
+example : ∃ s' co Sc T, revert repeatedMerge 0 2 = .ok s' ∧ getCommit repeatedMerge.commits 2 = some co ∧
+    snapAt repeatedMerge.commits 2 = .ok Sc ∧ snapAt repeatedMerge.commits 2 = .ok T :=
+  ⟨_, _, _, _, rfl, rfl, rfl, rfl⟩
 
 end Zed.Props.C15
